@@ -21,6 +21,11 @@ CLAIMED["C17"] = dict(
    note="Trusted: Lean kernel; equality of the recognisers with Go's regexp matching is validated by the correspondence, not proved; go-digest's algorithm registry. Agreement with the HTTP router is checked under C06/C03 (same predicates are called there).",
    technique="Lean 4 proof (parse/print round trips over recognisers) + grammar-directed differential against ociref",
    design="§5 C17")
+CLAIMED["C09"] = dict(
+   text="Lean 4 theorems about an executable model of ociauth.Scope (sorted repository entries with pull/push masks, catalog sentinel, sorted others): NewScope/ParseScope/Union establish the representation invariant WF; membership of the iterated items is the naive set (mem_newScope, mem_union); Iter is strictly ascending; Holds ⇔ membership; Contains ⇔ subset; Equal ⇔ same set; Len = cardinality; a union that adds nothing returns the receiver value including its original text; unlimited absorbs; repository scopes never confer the catalog scope or the reverse; print-then-parse yields an equal scope for clean fields. All for arbitrary byte-string field values, no size bound. Correspondence: all pairs of subsets of a 7-scope universe (thorough: exhaustive) plus random large universes and scope strings with Unicode white space, run on the exported API and diffed with the model; naive-set oracles in Go.",
+   note="Trusted: Lean kernel; binary searches are modelled by linear searches on sorted lists; strings.Fields is modelled by byte patterns of the Unicode white-space runes; the print/parse theorem is for fields free of ASCII white space, ':' ',' and the lead bytes 0xC2/0xE1/0xE2/0xE3 (a subset of the property's clean fields).",
+   technique="Lean 4 proof (set-algebra refinement of the scope representation) + exhaustive small-universe differential",
+   design="§5 C09")
 NOT_YET = {}
 
 def main():
